@@ -37,6 +37,8 @@ type ammWorld struct {
 	rng     *Rng
 	blocked map[string]bool
 	halted  bool
+	// number of provider refunds made by successful decommissions so far (each truncates < 1 unit per token)
+	decomBudget int
 }
 
 func userAddr(i int) sdk.AccAddress { return sdk.AccAddress(bytes.Repeat([]byte{byte(0x10 + i)}, 20)) }
@@ -166,6 +168,7 @@ func (w *ammWorld) observe(tag string) {
 	d := w.dump()
 	w.out.Emit("obs", d, "obs", false)
 	w.out.Emit("chk c01.solvent tag="+tag+".solvent "+d, "true", "chk.solvent", false)
+	w.out.Emit(fmt.Sprintf("chk c01.exact tag=%s.exact %d %s", tag, w.decomBudget, d), "true", "chk.exact", false)
 	w.out.Emit("chk c02.units tag="+tag+".units "+d, "true", "chk.units", false)
 }
 
@@ -359,15 +362,14 @@ func (w *ammWorld) step() {
 	case c < 84: // epoch end (rewards bucket payout)
 		w.hook("epoch", "epoch", func() { w.app.ClpKeeper.AfterEpochEnd(w.ctx, "hour", 1) })
 	case c < 94: // end of block, next height
+		// (the per-pool split probe of opEndBlock is used in the directed histories only: in random histories the
+		// per-period counters it reads are reset and the balances move inside the same EndBlocker)
 		w.hook("endblock", "endblock", func() { clp.EndBlocker(w.ctx, w.app.ClpKeeper) })
 		if !w.halted {
 			w.setHeight(w.height + 1 + int64(rng.Intn(2)))
 		}
 	case c < 95: // decommission (only small pools pass)
-		w.tx(fmt.Sprintf("decom %s %s", w.users[0], sym), "decom", func(ctx sdk.Context) (string, error) {
-			_, err := w.srv.DecommissionPool(sdk.WrapSDKContext(ctx), &clptypes.MsgDecommissionPool{Signer: w.users[0].String(), Symbol: sym})
-			return "", err
-		})
+		w.opDecom(sym)
 	default: // policy changes
 		w.policy()
 	}
@@ -759,8 +761,20 @@ func (w *ammWorld) opSwap(u sdk.AccAddress, sent, recv string, amt, minR *big.In
 }
 
 func (w *ammWorld) opDecom(sym string) {
+	// the refunds of a successful decommission may each leave a truncated remainder in the module account
+	n := 0
+	if all, err := w.app.ClpKeeper.GetAllLiquidityProviders(w.ctx); err == nil {
+		for _, l := range all {
+			if l.Asset.Symbol == sym {
+				n++
+			}
+		}
+	}
 	w.tx(fmt.Sprintf("decom %s %s", w.users[0], sym), "decom", func(ctx sdk.Context) (string, error) {
 		_, err := w.srv.DecommissionPool(sdk.WrapSDKContext(ctx), &clptypes.MsgDecommissionPool{Signer: w.users[0].String(), Symbol: sym})
+		if err == nil {
+			w.decomBudget += n
+		}
 		return "", err
 	})
 }
@@ -782,6 +796,15 @@ func (w *ammWorld) splitProbe() func() {
 	h := uint64(w.height)
 	if h < per.RewardPeriodStartBlock || h > per.RewardPeriodEndBlock || per.RewardPeriodDefaultMultiplier == nil {
 		return func() {}
+	}
+	// an LPPD run in the same EndBlocker changes the native balances before the depth rewards are split: the
+	// weights at the moment of the split cannot be observed from outside, so such blocks are not judged
+	if pd := k.GetProviderDistributionParams(w.ctx); pd != nil {
+		for _, p := range pd.DistributionPeriods {
+			if h >= p.DistributionPeriodStartBlock && h <= p.DistributionPeriodEndBlock {
+				return func() {}
+			}
+		}
 	}
 	pools := k.GetPools(w.ctx)
 	sort.Slice(pools, func(i, j int) bool { return pools[i].ExternalAsset.Symbol < pools[j].ExternalAsset.Symbol })
@@ -981,6 +1004,27 @@ func init() {
 			w.opAdd(w.users[3], "cusdc", e18(1), e18(1)) // refreshed: inside the lock period at the epoch end
 			w.setHeight(15)
 			w.opEpoch()
+		}
+		// D12: decommission of a pool with more providers than any page size a reader might assume (205): every
+		// provider is refunded and deleted, nothing but the truncation remainders stays behind
+		{
+			const nProv = 205
+			w := newAmmWorld(rng, out, nProv+2, -1)
+			for _, u := range w.users {
+				w.fund(u, "rowan", e18(1000000))
+				w.fund(u, "ceth", e18(1000000))
+				w.fund(u, "cusdc", e18(1000000))
+			}
+			w.opCreate(w.users[0], "cusdc", e18(50), e18(50))
+			w.opCreate(w.users[0], "ceth", e18(1), e18(1))
+			tiny := new(big.Int).Quo(e18(1), big.NewInt(1000))
+			for i := 1; i < nProv; i++ {
+				w.opAdd(w.users[i], "ceth", new(big.Int).Add(tiny, big.NewInt(int64(i))), new(big.Int).Add(tiny, big.NewInt(int64(7*i))))
+			}
+			// take the pool's native side below the decommission threshold
+			w.opSwap(w.users[nProv], "ceth", "rowan", e18(1), big.NewInt(0))
+			w.opDecom("ceth")
+			w.opSwap(w.users[nProv], "rowan", "cusdc", e18(1), big.NewInt(0))
 		}
 		// D11: a removal whose payout truncates to zero on both sides still burns the same units from the pool and
 		// from the provider (basis points and units)
